@@ -10,16 +10,18 @@
  *   affine matrices); they read N pointers at C, N*k*STRIDE table bytes at T and need len >= 16/32/64
  *   (sse,avx / avx2 / avx512: `sub len,VEC; jl .return_fail` in the .asm files; the *_gfni kernels take any len).
  *
- * What the stub *records* so that the glue can be verified (the data-level effect is not modelled: the
- * counterexample to the glue property is a call pattern, not data):  for the ghost row g_l,
+ * What the stub *records* so that the glue can be verified (the data-level effect is not modelled: a
+ * counterexample to the glue property is a call pattern, not data).  For the ghost row g_l:
  *   g_hits    += 1 iff this call produces row g_l, i.e.
- *                 N-row kernel: C == coding0 + b and b <= g_l < b+N   (b from the pointer offset of C)
- *                 1-row kernel: dest == coding0[g_l]                    (g_dst, snapshot at entry)
+ *                 N-row kernel: C == coding0 + b and b <= g_l < b+N    (b = slot index, from the pointer offset of C)
+ *                 1-row kernel: dest == block g_l                       (the harness makes block r = g_arena + r)
  *   g_hit_tbl  = table pointer the kernel uses for that row  (T + (g_l-b)*k*STRIDE)
- *   g_hit_dst  = destination block pointer of that row        (C[g_l-b])
+ *   g_hit_tbl2 = the same for row g_l+1 (the glue contract states the table stride between consecutive rows)
  * The `requires` clauses are CHECKED at every call site of the glue (that is the useful direction):
- *   same len, k, vec_i, data as the glue received; len >= VEC; C inside the caller's pointer array, aligned
- *   to a slot, N slots readable; N*k*STRIDE table bytes readable; 1-row dest is one of the caller's blocks. */
+ *   same len, k, vec_i, data as the glue received; len >= VEC; C inside the caller's pointer array, aligned to a
+ *   slot, all N slots among the caller's `rows` slots; the 1-row dest is one of the caller's `rows` blocks.
+ * The stubs never dereference `coding`: after the loop-contract havoc its value set is unknown to CBMC and a
+ * dereference fans out over every object of the program. */
 #ifndef STUBS_EC_KERNELS_H
 #define STUBS_EC_KERNELS_H
 #include "verif_common.h"
@@ -28,17 +30,17 @@
 #define EG_MAXROWS 255 /* GF(2^8): at most 255 distinct rows/columns make sense */
 
 /* ghost state of the glue contracts (defined in harness/ec/ec_glue.c) */
-extern int g_l;                  /* ghost row */
+extern int g_l;                         /* ghost row */
 extern int g_len, g_k, g_rows, g_vec_i; /* ghost copies of the scalar arguments (tied by == in requires) */
-extern unsigned char *g_t0;      /* g_tbls at entry   (snapshot by assignment in the E_ hook) */
-extern unsigned char **g_c0;     /* coding at entry   (snapshot) */
-extern void *g_data;             /* data at entry     (snapshot) */
-extern unsigned char *g_dst;     /* coding[g_l] at entry (snapshot) */
-extern size_t g_toff;            /* g_l*k*STRIDE: byte offset of the table block of row g_l */
-extern size_t g_tsize;           /* size of the table object */
-extern int g_hits;               /* number of kernel calls that produced row g_l */
-extern unsigned char *g_hit_tbl; /* table pointer used for row g_l */
-extern int g_base_calls;         /* calls of the portable fallback */
+extern unsigned char *g_t0;             /* g_tbls at entry (snapshot by assignment in the E_ hook) */
+extern unsigned char **g_c0;            /* coding at entry (snapshot) */
+extern void *g_data;                    /* data at entry   (snapshot) */
+extern unsigned char *g_arena;          /* block r of the harness is g_arena + r (assigned by the harness) */
+extern size_t g_tsize;                  /* size of the table object */
+extern int g_hits;                      /* number of kernel calls that produced row g_l */
+extern unsigned char *g_hit_tbl;        /* table pointer used for row g_l */
+extern unsigned char *g_hit_tbl2;       /* table pointer used for row g_l+1 */
+extern int g_base_calls;                /* calls of the portable fallback */
 
 /* r*k for r,k in 0..255 (requires clauses): the value-preserving casts keep the multiplier 8x8 bit for the
  * SAT back end (a 64x64 multiplier with operands bounded only by assumptions does not close) */
@@ -49,45 +51,45 @@ _Static_assert(sizeof(unsigned char *) == 8, "LP64 model");
 #define EGK_ROW0 ((long) (__CPROVER_POINTER_OFFSET(coding) >> 3))
 #define EGK_REL (g_l - EGK_ROW0)
 #define EGK_COV(N) (g_l < g_rows && EGK_ROW0 <= g_l && g_l < EGK_ROW0 + (N))
-#define EGK_COV1 (g_l < g_rows && dest == g_dst)
+/* row of a destination block */
+#define EGK_ROW1 ((long) __CPROVER_POINTER_OFFSET(dest))
+#define EGK_COV1 (g_l < g_rows && EGK_ROW1 == g_l)
+/* the same for the second ghost row g_l+1 */
+#define EGK_COV2(N) (g_l + 1 < g_rows && EGK_ROW0 <= g_l + 1 && g_l + 1 < EGK_ROW0 + (N))
+#define EGK_COV12 (g_l + 1 < g_rows && EGK_ROW1 == g_l + 1)
+/* p == q + n without pointer arithmetic in the contract (no side checks, no object-size reasoning) */
+#define EG_PTR_AT(p, q, n)                                                                         \
+        (__CPROVER_same_object(p, q) && __CPROVER_POINTER_OFFSET(p) == __CPROVER_POINTER_OFFSET(q) + (n))
 
 #define EGK_ARGS_DOT (len == g_len && k == g_k && (void *) data == g_data)
 #define EGK_ARGS_MAD (len == g_len && k == g_k && (void *) data == g_data && vec_i == g_vec_i)
 
-/* N-row kernel, N >= 2.  (The destination block of row g_l is C[g_l-b] == coding0[g_l]: determined by the
- * slot position, so only the table pointer needs recording.  The stub never dereferences `coding`: after
- * the loop-contract havoc its value set is unknown and a dereference fans out over every object.) */
+/* N-row kernel, N >= 2 */
 #define EGK_N(N, STRIDE, THR, ARGS)                                                                \
         __CPROVER_requires(ARGS)                                                                   \
         __CPROVER_requires(len >= (THR))                                                           \
         __CPROVER_requires(__CPROVER_same_object(coding, g_c0) &&                                  \
-                           (__CPROVER_POINTER_OFFSET(coding) & 7) == 0)                 \
+                           (__CPROVER_POINTER_OFFSET(coding) & 7) == 0)                            \
         __CPROVER_requires(EGK_ROW0 + (N) <= g_rows)                                               \
-        __CPROVER_requires(__CPROVER_r_ok(g_tbls, (N) * EG_PROD(1, k) * (STRIDE)))           \
-        __CPROVER_assigns(g_hits, g_hit_tbl)                                                       \
+        __CPROVER_assigns(g_hits, g_hit_tbl, g_hit_tbl2)                                           \
         __CPROVER_ensures(g_hits == __CPROVER_old(g_hits) + (EGK_COV(N) ? 1 : 0))                  \
-        __CPROVER_ensures(EGK_COV(N) ==> g_hit_tbl == g_tbls + EG_PROD(EGK_REL, k) * (STRIDE)) \
-        __CPROVER_ensures(!EGK_COV(N) ==> g_hit_tbl == __CPROVER_old(g_hit_tbl))
+        __CPROVER_ensures(EGK_COV(N) ==> EG_PTR_AT(g_hit_tbl, g_tbls, EG_PROD(EGK_REL, k) * (STRIDE))) \
+        __CPROVER_ensures(!EGK_COV(N) ==> g_hit_tbl == __CPROVER_old(g_hit_tbl))                   \
+        __CPROVER_ensures(EGK_COV2(N) ==>                                                          \
+                          EG_PTR_AT(g_hit_tbl2, g_tbls, EG_PROD(EGK_REL + 1, k) * (STRIDE)))       \
+        __CPROVER_ensures(!EGK_COV2(N) ==> g_hit_tbl2 == __CPROVER_old(g_hit_tbl2))
 
-#ifdef EG_NOQ
-#define EGK_1_INSIDE
-#else
-#define EGK_1_INSIDE                                                                               \
-        __CPROVER_requires(__CPROVER_exists {                                                      \
-                int r_;                                                                            \
-                (0 <= r_ && r_ < EG_MAXROWS) && (r_ < g_rows && dest == g_c0[r_])                  \
-        })
-#endif
-/* 1-row kernel: receives the destination block, the row is identified by the pointer value */
+/* 1-row kernel: receives the destination block; the row is identified by the pointer value */
 #define EGK_1(STRIDE, THR, ARGS)                                                                   \
         __CPROVER_requires(ARGS)                                                                   \
         __CPROVER_requires(len >= (THR))                                                           \
-        EGK_1_INSIDE                                                                               \
-        __CPROVER_requires(__CPROVER_r_ok(g_tbls, EG_PROD(1, k) * (STRIDE)))                          \
-        __CPROVER_assigns(g_hits, g_hit_tbl)                                                       \
+        __CPROVER_requires(__CPROVER_same_object(dest, g_arena) && EGK_ROW1 < g_rows)              \
+        __CPROVER_assigns(g_hits, g_hit_tbl, g_hit_tbl2)                                           \
         __CPROVER_ensures(g_hits == __CPROVER_old(g_hits) + (EGK_COV1 ? 1 : 0))                    \
         __CPROVER_ensures(EGK_COV1 ==> g_hit_tbl == g_tbls)                                        \
-        __CPROVER_ensures(!EGK_COV1 ==> g_hit_tbl == __CPROVER_old(g_hit_tbl))
+        __CPROVER_ensures(!EGK_COV1 ==> g_hit_tbl == __CPROVER_old(g_hit_tbl))                     \
+        __CPROVER_ensures(EGK_COV12 ==> g_hit_tbl2 == g_tbls)                                      \
+        __CPROVER_ensures(!EGK_COV12 ==> g_hit_tbl2 == __CPROVER_old(g_hit_tbl2))
 
 #define EGK_DOT_1(RET, ISA, STRIDE, THR)                                                           \
         RET gf_vect_dot_prod_##ISA(int len, int k, unsigned char *g_tbls, unsigned char **data,    \
